@@ -599,10 +599,17 @@ class DataGen:
         return v
 
 
-def layout_strategy(d, max_blocks=4):
+def layout_strategy(d, max_blocks=4, stats=None):
     """Returns a layout(kind, n) function drawing a block partition per collection."""
 
     def layout(kind, n):
+        plan = _layout(kind, n)
+        if stats is not None:
+            stats["max_blocks"] = max(stats.get("max_blocks", 0), len(plan))
+            stats["neg"] = stats.get("neg", 0) + sum(1 for _, neg in plan if neg)
+        return plan
+
+    def _layout(kind, n):
         if n <= 0:
             return []
         nb = min(n, d.rng(1, max_blocks))
